@@ -437,6 +437,57 @@ class CheckExtendedTask(Task):
             I.ob(f"{P}/one-response-item-per-entry-the-item-setters-accept-in-the-handler's-order-and-none-on-failure", ok, detail=f"{kindn}: {val!r}")
 
 
+class UserIdentityGetterTask(Task):
+    """ServiceUser.user_identity for the peer's side (read from the received A-ASSOCIATE primitive): the User Identity item of the
+    user-information list if the list has one - WHATEVER its fields hold (an empty user name is still an identity the handler has
+    to judge) - and None only if the list has none.  _negotiate_as_acceptor decides on this value whether the identity handler is
+    consulted at all."""
+    name = "ServiceUser.user_identity"
+    FN = "pynetdicom.association:ServiceUser.user_identity.fget"
+    functions = [FN]
+    shard = False
+
+    def __init__(self, prefix="C13/"):
+        self.prefix = prefix
+
+    def config(self, repo):
+        c = Config()
+        c.ob_prefix = self.prefix
+        return c
+
+    def body(self, I):
+        P = f"{self.prefix}pynetdicom.association:ServiceUser.user_identity"
+        PP = "pynetdicom.pdu_primitives"
+        ci = I.repo.cls("pynetdicom.association:ServiceUser")
+        me = Env("peer", cls=ci)
+        me.attrs["writeable"] = False
+        others = [Obj(I.repo.cls(f"{PP}:MaximumLengthNotification")), Obj(I.repo.cls(f"{PP}:ImplementationClassUIDNotification")),
+                  Obj(I.repo.cls(f"{PP}:SCP_SCU_RoleSelectionNegotiation"))]
+        ident = Obj(I.repo.cls(f"{PP}:UserIdentityNegotiation"))
+        form = I.choose(2, "request or response form")
+        ident.fields.update(_user_identity_type=I.input("int", "user_identity_type"), _positive_response_requested=I.input("bool", "positive_response_requested"),
+                            _primary_field=I.input("bytes", "primary_field") if form == 0 else None,
+                            _secondary_field=I.input("bytes", "secondary_field") if form == 0 else None,
+                            _server_response=I.input("bytes", "server_response") if form == 1 else None)
+        pos = I.choose(5, "where the identity item stands")      # 0..3: at that position; 4: the list has none
+        items = list(others)
+        if pos < 4:
+            items.insert(pos, ident)
+        me.attrs["user_information"] = items
+        prim = Env("peer.primitive")
+        prim.attrs["user_information"] = items
+        me.attrs["primitive"] = prim
+        ci_f = ci.props["user_identity"].fget
+        kind, val = I.run_function(ci_f, [me])
+        I.ob(f"{P}/no-exception", kind == "return", detail=f"{kind}:{val!r}")
+        if kind != "return":
+            return
+        if pos < 4:
+            I.ob(f"{P}/the-identity-item-of-the-received-request-is-returned-whatever-its-fields-hold", val is ident, detail=repr(val))
+        else:
+            I.ob(f"{P}/None-only-when-the-received-request-carries-no-identity-item", val is None, detail=repr(val))
+
+
 class CheckAsyncOpsTask(Task):
     """ACSE._check_async_ops on its real body: the handler's answer is ignored (asynchronous operations are not supported): the
     result is None when the handler says NotImplementedError and otherwise the fixed window (1, 1) - whatever else the handler
